@@ -1,8 +1,38 @@
 prop("C04",
-     level_text="(under construction)",
-     level_note="",
-     technique="Lean 4 theorems over an executable model + regenerated structural facts (factgen plugin) + differential correspondence",
+     level_text="Lean 4 theorems over the executable plugin model M4-core (Galaxy/Model/Plugin.lean: the galaxy-ipam scheduler "
+                "plugin at operation granularity - own compact IPAM sub-model, API truth, stale informer views, pending "
+                "delete/finish events carrying the pod snapshot, cloud-provider log - with 17 moves incl. the adversary moves "
+                "createPod/deletePod with fresh UIDs, delayed and dropped events, listerSync, resync in any order, apiRelease, "
+                "syncPodIPs, reload, restart; Go map nondeterminism as validated choice arguments; one failing apiserver and "
+                "one failing provider call per move). Proved by an inductive invariant (11 conjuncts: store/memory coherence, "
+                "ownership of handed IPs by key AND uid, no foreign-uid record under a live key, unique fresh UIDs, lister "
+                "snapshots, dead events, ...) preserved by EVERY move and lifted over all finite histories: "
+                "live_bound_pod_keeps_ip_partial, no_unassign_for_live_pod_partial, late_event_keeps_ip_partial, fact_* "
+                "(regenerated guard/lock shapes). Counter theorems: live_bound_pod_keeps_ip_counter (model without the unbind "
+                "UID guard = fixed defect D2, replay corpus/C04/d2.ops), stale_lister_bind_counter and stale_record_counter "
+                "(the two places where the CURRENT code leaves the property).",
+     level_note="_partial: the theorems carry the decidable side conditions Galaxy.Plugin.assumed: non-empty names; a reload keeps "
+                "live pods' addresses configured (as the property says) and its fault does not hit a store delete; and at every "
+                "bind the pod lister shows the API server's incarnation and no record of another incarnation is stored under the "
+                "pod's key. The last condition is NOT guaranteed by the code: both counter histories break the real plugin "
+                "(known findings bind-with-stale-lister-stores-old-uid, stale-record-of-same-key-releases-live-pod-ip). "
+                "Scalable custom resources (TApp with a scale subresource), Preempt and admin reservations are not modelled.",
+     technique="Lean 4 inductive invariant over an executable model parameterised by regenerated structural facts (factgen plugin: "
+               "unbindChecksUID, bindChecksUID, release/resync re-read under lockPod, lister-then-apiserver, lockPod at six entry "
+               "points) + differential correspondence of every step (result class, observed choices, full digest of memory, "
+               "store, pods, events, provider) of the REAL FloatingIPPlugin built in-process on fake clientsets behind "
+               "call-counting fault-injecting decorators with harness-controlled listers; monitor = the C04 statement on the "
+               "real IPAM and the recording provider after every step; thorough: breadth-first enumeration of all states "
+               "reachable within 8 moves over a 16-move alphabet (2 pod names, any incarnations, 2 addresses)",
      factgen=["plugin"],
      drivers=["plugin"],
+     trusted=["tools/factgen/cmd/plugin: syntactic extraction (statement order inside single functions, no aliasing analysis)",
+              "harness/plugin: client-go fake clientsets stand in for the API server; pods/binding is implemented by the "
+              "decorator (UID precondition, nodeName, annotation merge); listers are indexers the harness fills; the resync "
+              "checklist order and the event delivery order are chosen by the harness through verif_hooks_plugin.go"],
+     assumptions=["structured keys: that the rendered key string is injective for names without '_' is C11's theorem",
+                  "pools of a configuration are pairwise disjoint as address sets with distinct gateways (generator); "
+                  "operations on one pod name are atomic (fact: lockPod), operations on different names interleave as moves",
+                  "a restarted process loads the configuration last applied; its informers are synced before it serves"],
      timeout={"quick": 900, "thorough": 3600},
      )
